@@ -680,6 +680,7 @@ func genC06(r *rng, tier string, emit func(string)) {
 			}
 		}
 	}
+	c06rGen(r, tier, emit) // Conn.Read buffering and handshake reassembly (Model.ConnRead)
 }
 
 type keyLog struct {
